@@ -178,8 +178,9 @@ class SumAggregator:
                             trigger_index = i
                             continue
                         anon_are_anonymous = False
-                    if anon_are_anonymous:
-                        assert trigger_index is not None
+                    if anon_are_anonymous and trigger_index is not None:
+                        if not self.domain_predicates.has_domain(next_anon_pred.pred):
+                            return None
                         return (lit, trigger_index, next_anon_pred)
         return None
 
